@@ -221,6 +221,42 @@ func c01Systematic() []c01Case {
 			add(&ref.Binary{Op: "<", L: l, R: pl}, dataFor(), "float-literal:exponent-vs-positional:lt")
 			add(&ref.Binary{Op: "==", L: &ref.Binary{Op: "-", L: l, R: pl}, R: &ref.Lit{V: ref.Float(0), Src: "0.0"}}, dataFor(), "float-literal:difference-is-zero")
 		}
+		// injected data: every access form; the same references with an index that changes between evaluations (pinned
+		// to the position that evaluates the expression once per iteration of a loop over 0..3)
+		ij := func(acc ...ref.Acc) *ref.DataRef { return &ref.DataRef{Name: "ij", Acc: acc} }
+		itv := &ref.DataRef{Name: "it"}
+		key := func(k string) ref.Acc { return ref.Acc{Kind: 0, Key: k} }
+		for _, e := range []ref.Expr{ij(key("user")), ij(key("count")), ij(key("nums"), ref.Acc{Kind: 1, Index: 2}), ij(ref.Acc{Kind: 2, Arg: &ref.Lit{V: ref.Str("user")}}),
+			ij(key("none")), ij(key("nope")), ij(ref.Acc{Kind: 0, Key: "nope", NullSafe: true}, ref.Acc{Kind: 0, Key: "x", NullSafe: true}), ij(key("nope"), key("x")),
+			ij(key("tbl"), ref.Acc{Kind: 2, Arg: &ref.Binary{Op: "+", L: &ref.Lit{V: ref.Str("k")}, R: ij(key("count"))}}), ij(key("nums"), ref.Acc{Kind: 1, Index: 9}),
+			&ref.Binary{Op: "+", L: ij(key("count")), R: ij(key("nums"), ref.Acc{Kind: 2, Arg: ij(key("count"))})}} {
+			add(e, dataFor(), "ij")
+		}
+		loopPos := -1
+		for k, p := range c01Positions {
+			if p.name == "four-times-in-a-loop" {
+				loopPos = k
+			}
+		}
+		lst := ref.Value{K: ref.KList, ID: 710, L: []ref.Value{ref.Str("l0"), ref.Str("l1"), ref.Str("l2"), ref.Str("l3")}}
+		short := ref.Value{K: ref.KList, ID: 711, L: []ref.Value{ref.Int(5), ref.Int(6)}}
+		mp := ref.MapOf("k0", ref.Str("v0"), "k1", ref.Str("v1"), "k2", ref.Str("v2"), "k3", ref.Str("v3"))
+		mp.ID = 712
+		ld := map[string]ref.Value{"x": lst, "y": short, "m": mp}
+		idx := func(e ref.Expr) ref.Acc { return ref.Acc{Kind: 2, Arg: e} }
+		for _, e := range []ref.Expr{
+			ij(key("nums"), idx(itv)), ij(key("names"), idx(itv)), &ref.Binary{Op: "+", L: ij(key("names"), idx(itv)), R: itv},
+			ij(key("tbl"), idx(&ref.Binary{Op: "+", L: &ref.Lit{V: ref.Str("k")}, R: itv})), ij(key("nums"), idx(&ref.Binary{Op: "-", L: &ref.Lit{V: ref.Int(3)}, R: itv})),
+			&ref.DataRef{Name: "x", Acc: []ref.Acc{idx(itv)}}, &ref.DataRef{Name: "m", Acc: []ref.Acc{idx(&ref.Binary{Op: "+", L: &ref.Lit{V: ref.Str("k")}, R: itv})}},
+			&ref.DataRef{Name: "y", Acc: []ref.Acc{idx(itv)}}, // past the end from the third iteration on: an error, and no text for it
+			ij(key("nums"), idx(&ref.Binary{Op: "+", L: itv, R: &ref.Lit{V: ref.Int(2)}})),
+			&ref.Binary{Op: "?:", L: &ref.DataRef{Name: "y", Acc: []ref.Acc{{Kind: 2, Arg: itv, NullSafe: true}}}, R: &ref.Lit{V: ref.Str("dflt")}},
+			&ref.Tern{C: &ref.Binary{Op: "<", L: itv, R: &ref.Lit{V: ref.Int(2)}}, A: &ref.DataRef{Name: "y", Acc: []ref.Acc{idx(itv)}}, B: ij(key("nums"), idx(itv))},
+			&ref.Call{Fn: "length", Args: []ref.Expr{ij(key("names"), idx(itv))}}, &ref.ListLit{Items: []ref.Expr{itv, ij(key("nums"), idx(itv))}},
+			&ref.Binary{Op: "*", L: ij(key("nums"), idx(itv)), R: ij(key("nums"), idx(&ref.Binary{Op: "%", L: &ref.Binary{Op: "+", L: itv, R: &ref.Lit{V: ref.Int(1)}}, R: &ref.Lit{V: ref.Int(4)}}))},
+		} {
+			c01Sys = append(c01Sys, c01Case{E: e, Data: ld, Cell: "varying-index", Pos: loopPos})
+		}
 		// compile-time globals of every kind, alone and as operands
 		gnames := []string{"G_NULL", "G_TRUE", "G_FALSE", "G_ZERO", "G_INT", "G_NEG", "G_BIG", "G_FLOAT", "app.name", "app.empty", "a.b.c.DEEP", "G_LIST", "G_MAP"}
 		for _, gn := range gnames {
@@ -418,14 +454,30 @@ var c01Positions = []struct {
 	{"msg-placeholder", func(e ref.Expr, v ref.Value, st ref.Status) []ref.Node {
 		return []ref.Node{&ref.Msg{Desc: "d", Body: []ref.Node{&ref.Raw{Text: "a "}, &ref.Print{E: e}, &ref.Raw{Text: " b"}}}}
 	}},
+	{"four-times-in-a-loop", func(e ref.Expr, v ref.Value, st ref.Status) []ref.Node {
+		// the same expression evaluated once per iteration (cells that mention $it see another value each time)
+		list := &ref.ListLit{Items: []ref.Expr{&ref.Lit{V: ref.Int(0)}, &ref.Lit{V: ref.Int(1)}, &ref.Lit{V: ref.Int(2)}, &ref.Lit{V: ref.Int(3)}}}
+		return []ref.Node{&ref.Foreach{Var: "it", List: list, Body: []ref.Node{&ref.Print{E: e}, &ref.Raw{Text: ";"}}, Keyword: "foreach"}}
+	}},
 	{"content-param", func(e ref.Expr, v ref.Value, st ref.Status) []ref.Node {
 		return []ref.Node{&ref.CallT{Target: "t.show", NameSrc: ".show", Params: []ref.Param{{Name: "p", IsContent: true, Content: []ref.Node{&ref.Print{E: e, Dirs: []ref.Dir{{Name: "noAutoescape"}}}}}}}}
 	}},
 }
 
+// c01IJ is the injected data of every C01 render.
+var c01IJ = func() ref.Value {
+	nums := ref.Value{K: ref.KList, ID: 701, L: []ref.Value{ref.Int(10), ref.Int(11), ref.Int(12), ref.Int(13)}}
+	names := ref.Value{K: ref.KList, ID: 702, L: []ref.Value{ref.Str("n0"), ref.Str("n1"), ref.Str("n<2>"), ref.Str("n3")}}
+	tbl := ref.MapOf("k0", ref.Int(100), "k1", ref.Int(101), "k2", ref.Int(102), "k3", ref.Int(103))
+	tbl.ID = 703
+	v := ref.MapOf("user", ref.Str("u&1"), "count", ref.Int(3), "nums", nums, "names", names, "tbl", tbl, "none", ref.Null)
+	v.ID = 700
+	return v
+}()
+
 // c01Program wraps the expression at the position into a one-file bundle.
 func c01Program(e ref.Expr, d map[string]ref.Value, pos int, globals map[string]ref.Value) (*gen.Program, string) {
-	env := ref.NewEnv(d, nil, globals)
+	env := ref.NewEnv(d, &c01IJ, globals)
 	v, st := ref.Eval(e, env)
 	body := c01Positions[pos].mk(e, v, st)
 	if body == nil {
@@ -488,7 +540,9 @@ func init() {
 				c := all[i%len(all)]
 				e, d, cell = c.E, c.Data, c.Cell
 				globals = c.Globals
-				if ctx.Tier == "thorough" {
+				if c.Pos >= 0 {
+					pos = c.Pos
+				} else if ctx.Tier == "thorough" {
 					pos = i / len(all)
 				} else if i < len(all) {
 					pos = 0
@@ -529,7 +583,7 @@ func init() {
 			files := bundleSources(prog.B, ref.Layout{Style: style})
 			ctx.Cell("pos:" + posName)
 			cd := dump(files, prog, d)
-			segs, st := ref.Render(prog.B, prog.Entry, d, ref.RenderOpts{})
+			segs, st := ref.Render(prog.B, prog.Entry, d, ref.RenderOpts{IJ: &c01IJ})
 			tofu, err := compile(files, prog.B.Globals)
 			if err != nil {
 				ctx.Eval("")
@@ -552,7 +606,7 @@ func init() {
 				ctx.Obs("out_of_domain_but_compiled", 1)
 				return fw.Result{Verdict: fw.Skip}
 			}
-			got, rerr := render(tofu, prog.Entry, d, nil, nil)
+			got, rerr := render(tofu, prog.Entry, d, &c01IJ, nil)
 			ctx.Eval(id)
 			// randomInt has no single defined value: check its range
 			if c, ok := e.(*ref.Call); ok && c.Fn == "randomInt" && posName == "print-implicit" {
